@@ -502,6 +502,39 @@ def step(ctx, rng, pool, allow_oob):
         ctx.log("remove_bond_order"); ctx.op("remove_bond_order")
         bl.remove_bond_order()
         m.d = {k: 0 for k in m.d}
+    elif op == "getitem" and n >= 2 and rng.random() < 0.15:
+        # an index array / list that names an atom twice: the library documents this as not supported (NotImplementedError);
+        # what may never happen is a list that silently connects other atoms
+        k = int(rng.integers(2, min(n, 6) + 1))
+        idxs = [int(v) for v in rng.integers(0, n, size=k)]
+        dup = idxs[int(rng.integers(k))]
+        pos = int(rng.integers(k))
+        idxs[pos] = dup if idxs.count(dup) < 2 else idxs[pos]
+        if len(set(idxs)) == len(idxs):
+            idxs[-1] = idxs[0]
+        if rng.random() < 0.4:
+            idxs = [v - n if rng.random() < 0.5 else v for v in idxs]
+        obj = idxs if rng.random() < 0.4 else np.array(idxs, dtype=str(rng.choice(["int64", "int32", "uint8" if min(idxs) >= 0 else "int16"])))
+        ctx.log("getitem_duplicates", idxs)
+        ctx.op("getitem_duplicate_indices")
+        ctx.oracle("duplicate_index_refused_or_exact")
+        try:
+            nb = bl[obj]
+        except NotImplementedError as e:
+            ctx.exc(e)
+        else:
+            res = [v % n for v in idxs]
+            want = set()
+            for a_ in range(len(res)):
+                for b_ in range(a_ + 1, len(res)):
+                    t_ = m.d.get((min(res[a_], res[b_]), max(res[a_], res[b_])))
+                    if t_ is not None and res[a_] != res[b_]:
+                        want.add((a_, b_, t_))
+            got = {(int(r_[0]), int(r_[1]), int(r_[2])) for r_ in nb.as_array()}
+            if nb.get_atom_count() != len(res) or got != want:
+                ctx.fail("duplicate_index_refused_or_exact", "BondList[%s] (an atom named twice) was accepted and returned %s on %d atoms; "
+                         "the selection numpy semantics give is %s" % (idxs, sorted(got), nb.get_atom_count(), sorted(want)))
+        check_views(ctx, bl, m, deep=False)
     elif op == "getitem":
         obj, old, desc = gen_index(rng, n, ctx.allowed("noncontiguous_mask"))
         ctx.log("getitem", desc)
@@ -625,6 +658,15 @@ def case_construct(rng, ctx):
     n = int(rng.integers(0, 12))
     kind = str(rng.choice(["valid", "oob_high", "oob_low", "bad_shape", "bad_type", "valid"]))
     ctx.op("construct_" + kind)
+    if kind == "valid" and rng.random() < 0.1:
+        # "no bonds" given as an empty array of any shape numpy produces for it, (the constructor takes ndarrays only)
+        empty = [np.array([]), np.zeros((0, 2), dtype=np.int64), np.zeros((0, 3), dtype=np.int64), np.array([], dtype=np.uint32)][int(rng.integers(4))]
+        ctx.log("BondList(empty input)", n, str(np.shape(empty)))
+        ctx.op("construct_empty_input")
+        bl = BondList(n, empty)
+        check_views(ctx, bl, Model(n, {}))
+        ctx.mark_nontrivial()
+        return
     if kind == "valid":
         bl, m = build(ctx, rng, n=n)
         check_views(ctx, bl, m)
